@@ -1,5 +1,7 @@
-(* C11 — soundness of VerifyProof (calculatePathNodes) for claims about leaves: if the proof verifies against the
-   LIP-0031 root of l, every claimed (leaf index, hash) pair is the hash of that leaf of l.
+(* C11 — soundness of VerifyProof (calculatePathNodes) for claims about ANY nodes of the tree (leaves, branch nodes,
+   pass-through nodes, in any mix): if the proof verifies against the LIP-0031 root of l, every claimed (node index, hash)
+   pair is the value of that node of l.  Both clash checks of the loop are used: a hash claimed for a parent index is
+   compared with the computed branch hash and with the hash carried up through a node without sibling.
    Method: a "frontier" invariant over the work list — IF every node still in the work list carries its true value
    THEN all original claims are true — preserved backwards by each step thanks to the injectivity of the branch hash;
    at the end the only frontier node is the root, whose value is checked against the root hash. *)
@@ -85,12 +87,12 @@ Section Sound.
   Definition fv (res cache : list (N * Hsh)) (Z : N) : option Hsh :=
     match lookup res Z with Some h => Some h | None => lookup cache Z end.
   Definition isnode (Z k i : N) : Prop := vnode n k i /\ Z = nidx Hh k i.
+  (* a leaf or a node with both children (used by the completeness invariants) *)
   Definition realn (k i : N) : Prop := k = 0 \/ (2 * i + 1) * 2 ^ (k - 1) < n.
 
   Definition Inv (wl : list N) (res cache : list (N * Hsh)) : Prop :=
     lsorted wl /\
     (forall Z, In Z wl -> exists k i, isnode Z k i) /\
-    (forall Z h, lookup res Z = Some h -> exists k i, isnode Z k i /\ realn k i) /\
     (forall Y c, lookup cache Y = Some c ->
        exists k i, isnode Y (k + 1) i /\ n <= (2 * i + 1) * 2 ^ k /\ fv res cache (nidx Hh k (2 * i)) = Some c) /\
     (forall Z, In Z wl -> fv res cache Z <> None) /\
@@ -106,9 +108,10 @@ Section Sound.
   Lemma inv_step_cache : forall X rest res cache k i c,
     Inv (X :: rest) res cache -> isnode X k i -> k + 1 < Hh -> fv res cache X = Some c ->
     n <= sib_of i * 2 ^ k ->
+    (forall e, lookup res (X / 2) = Some e -> e = c) ->
     Inv (ins_idx (X / 2) rest) res ((X / 2, c) :: cache).
   Proof.
-    intros X rest res cache k i c (Hs & I1 & I4 & I3 & I6 & I2) HX Hk Hc Hemp.
+    intros X rest res cache k i c (Hs & I1 & I3 & I6 & I2) HX Hk Hc Hemp Hclash.
     destruct HX as [HvX ->]. set (X := nidx Hh k i) in *. set (Y := X / 2).
     assert (HY : isnode Y (k + 1) (i / 2)).
     { split; [apply vnode_parent; assumption|]. unfold Y, X. apply nidx_parent. exact Hk. }
@@ -118,27 +121,24 @@ Section Sound.
       assert (i / 2 * 2 + (i + 1) mod 2 = i - 1) by lia. nia. }
     destruct Hev as [Hev Hsib].
     assert (HXY : X <> Y) by (apply node_neq_parent; assumption).
-    assert (HresY : lookup res Y = None).
-    { destruct (lookup res Y) eqn:E; [|reflexivity]. exfalso.
-      destruct (I4 _ _ E) as (k2 & i2 & N2 & [R|R]).
-      - destruct (isnode_inj _ _ _ _ _ N2 HY). lia.
-      - destruct (isnode_inj _ _ _ _ _ N2 HY) as [-> ->]. replace (k + 1 - 1) with k in R by lia. lia. }
+    assert (HresY : forall e, lookup res Y = Some e -> e = c) by exact Hclash.
     assert (HcacheY : forall c0, lookup cache Y = Some c0 -> c0 = c).
     { intros c0 E. destruct (I3 _ _ E) as (k2 & i2 & N2 & _ & F).
       destruct (isnode_inj _ _ _ _ _ N2 HY) as [Ek Ei]. assert (k2 = k) by lia. subst k2 i2.
       rewrite <- Hev in F. fold X in F. congruence. }
     assert (Hfv' : forall Z, fv res ((Y, c) :: cache) Z = if Y =? Z then (match lookup res Z with Some h => Some h | None => Some c end) else fv res cache Z).
     { intros Z. unfold fv. rewrite lookup_cons. destruct (N.eqb_spec Y Z); destruct (lookup res Z); reflexivity. }
-    assert (HfvY : fv res ((Y, c) :: cache) Y = Some c) by (rewrite Hfv', N.eqb_refl, HresY; reflexivity).
+    assert (HfvY : fv res ((Y, c) :: cache) Y = Some c).
+    { rewrite Hfv', N.eqb_refl. destruct (lookup res Y) as [e|] eqn:E; [rewrite (HresY e eq_refl)|]; reflexivity. }
     assert (Hsame : forall Z, Z <> Y -> fv res ((Y, c) :: cache) Z = fv res cache Z).
     { intros Z Hne. rewrite Hfv'. destruct (N.eqb_spec Y Z); [congruence|reflexivity]. }
     assert (HoldY : fv res cache Y <> None -> fv res cache Y = Some c).
-    { unfold fv. rewrite HresY. destruct (lookup cache Y) eqn:E; [|congruence]. intros _. f_equal. apply HcacheY. reflexivity. }
+    { unfold fv. destruct (lookup res Y) as [e|] eqn:Er; [intros _; rewrite (HresY e eq_refl); reflexivity|].
+      destruct (lookup cache Y) eqn:E; [|congruence]. intros _. f_equal. apply HcacheY. reflexivity. }
     destruct Hs as [HsX Hsr].
     repeat split.
     - apply ins_idx_lsorted. exact Hsr.
     - intros Z HZ. apply in_ins_idx in HZ. destruct HZ as [->|HZ]; [eauto|]. apply I1. right. exact HZ.
-    - exact I4.
     - intros Y2 c2 E. rewrite lookup_cons in E. destruct (N.eqb_spec Y Y2) as [<-|Hne].
       + inversion E; subst c2. exists k, (i / 2). split; [exact HY|]. split; [lia|].
         rewrite <- Hev. fold X. rewrite Hsame by exact HXY. exact Hc.
@@ -168,7 +168,7 @@ Section Sound.
     (forall e, lookup res (X / 2) = Some e -> e = ph) ->
     Inv (ins_idx (X / 2) rest) ((X / 2, ph) :: res) cache.
   Proof.
-    intros X rest res cache k i c sh (Hs & I1 & I4 & I3 & I6 & I2) HX Hk Hc Hsib ph Hclash.
+    intros X rest res cache k i c sh (Hs & I1 & I3 & I6 & I2) HX Hk Hc Hsib ph Hclash.
     destruct HX as [HvX ->]. set (X := nidx Hh k i) in *. set (Y := X / 2) in *.
     assert (HY : isnode Y (k + 1) (i / 2)).
     { split; [apply vnode_parent; assumption|]. unfold Y, X. apply nidx_parent. exact Hk. }
@@ -193,9 +193,6 @@ Section Sound.
     repeat split.
     - apply ins_idx_lsorted. exact Hsr.
     - intros Z HZ. apply in_ins_idx in HZ. destruct HZ as [->|HZ]; [eauto|]. apply I1. right. exact HZ.
-    - intros Z h E. rewrite lookup_cons in E. destruct (N.eqb_spec Y Z) as [<-|Hne].
-      + exists (k + 1), (i / 2). split; [exact HY|]. right. replace (k + 1 - 1) with k by lia. exact HrealY.
-      + apply (I4 _ _ E).
     - intros Y2 c2 E. destruct (I3 _ _ E) as (k2 & i2 & N2 & B2 & F2). exists k2, i2. split; [exact N2|]. split; [exact B2|].
       destruct (N.eq_dec (nidx Hh k2 (2 * i2)) Y) as [EY|NY].
       + rewrite EY in *. rewrite HfvY. rewrite <- F2. symmetry. apply HoldY. congruence.
@@ -224,9 +221,9 @@ Section Sound.
   Proof.
     induction fuel; intros wl res cache sibs resF HI Hrun Hroot; [discriminate|].
     cbn [cpn] in Hrun. destruct wl as [|X rest].
-    - inversion Hrun; subst. destruct HI as (_ & _ & _ & _ & _ & I2). apply I2. intros Z [].
+    - inversion Hrun; subst. destruct HI as (_ & _ & _ & _ & I2). apply I2. intros Z [].
     - destruct (N.eqb_spec X 2) as [->|HX2].
-      + inversion Hrun; subst resF. destruct HI as ([HsX _] & I1 & _ & _ & _ & I2). apply I2.
+      + inversion Hrun; subst resF. destruct HI as ([HsX _] & I1 & _ & _ & I2). apply I2.
         intros Z HZ k i [Hv EZ].
         assert (Hb : blen Z <= 2).
         { destruct HZ as [<-|HZ]; [cbn; lia|]. pose proof (HsX Z HZ) as B. cbn in B. exact B. }
@@ -236,7 +233,7 @@ Section Sound.
         pose proof (vnode_bound n k i Hok Hv) as Hi. replace (Hh - k - 1) with 0 in Hi by lia. change (2 ^ 0) with 1 in Hi.
         assert (i = 0) by lia. subst i. replace k with (Hh - 1) by lia.
         rewrite (root_value n Hok hempty hleaf hbranch l Hlen). unfold fv. rewrite Hroot. reflexivity.
-      + pose proof HI as (_ & I1 & _ & _ & I6 & _).
+      + pose proof HI as (_ & I1 & _ & I6 & _).
         destruct (I1 X (or_introl eq_refl)) as (k & i & HvX & EX).
         assert (Hk : k + 1 < Hh).
         { destruct (N.lt_ge_cases (k + 1) Hh) as [?|Hge]; [assumption|]. exfalso. apply HX2.
@@ -262,5 +259,6 @@ Section Sound.
           end.
           eapply IHfuel; [|exact Hrun|exact Hroot].
           apply (inv_step_cache X rest res cache k i c HI (conj HvX EX) Hk Hc Hemp).
+          intros e He. rewrite He in Hclash. apply heqb_eq. destruct (heqb e c) eqn:E; [reflexivity|discriminate].
   Qed.
 End Sound.
